@@ -299,6 +299,17 @@ pub fn guard_violation(m: &Model, gs: &GuardState, op: &FsOp) -> Option<&'static
             {
                 None
             }
+            // ... and removing the (quiescent, handle-free) file under its new name, inside that one directory
+            FsOp::RemoveFile { path, .. }
+                if gs.renamed_to.as_deref() == Some(path.as_str())
+                    && m.is_file(path)
+                    && !has_open_handle(m, path)
+                    && gs.must_sync.len() == 1
+                    && gs.must_sync.contains_key(&parent_of(path))
+                    && gs.must_sync.values().all(|w| *w == KF_RENAME) =>
+            {
+                None
+            }
             _ => Some(why),
         };
     }
